@@ -163,7 +163,7 @@ func (x *Exec) assumeWF(st *St) {
 	env := &CEnv{X: x, Names: map[string]*Val{}, St: st, Pkg: x.W.mainPkg()}
 	x.wrapCfail("global invariant", func() {
 		for _, inv := range x.W.CS.GlobalInvs {
-			x.assume(st, env.Formula(inv.Expr))
+			x.assume(st, env.HypFormula(inv.Expr))
 		}
 	})
 	st.wfKnown = true
@@ -171,6 +171,22 @@ func (x *Exec) assumeWF(st *St) {
 	for k := range x.W.wfFields(x) {
 		st.wfSnap[k] = st.heap[k]
 	}
+	st.pc = append(st.pc, x.wfAtom(st))
+}
+
+// wfAtom is the opaque predicate $WF(heap components) that records "the global invariant holds of this heap";
+// lemma axioms are conditional on it.
+func (x *Exec) wfAtom(st *St) *Term {
+	keys := sortedKeys(x.W.wfFields(x))
+	var args []*Term
+	var sorts []Sort
+	for _, k := range keys {
+		t := x.heapKeyTerm(st, k)
+		args = append(args, t)
+		sorts = append(sorts, t.Sort)
+	}
+	x.W.BG.Funs["$WF"] = FunSig{Name: "$WF", Args: sorts, Res: SBool}
+	return App("$WF", SBool, args...)
 }
 
 func (x *Exec) assertWF(st *St, where, pos string) {
